@@ -7,6 +7,7 @@ the *user-level* inputs (DESIGN.md section 3, C05).
 """
 import importlib
 import math
+import sys
 import warnings
 
 import numpy as np
@@ -155,6 +156,8 @@ def generate(rng, tier):
 
 
 def describe(case):
+    if case.get("large"):
+        return case
     d = {k: v for k, v in case.items() if k not in ("x", "y", "layers")}
     d["x"] = {k: (v if k != "pts" else v[:6]) for k, v in case["x"].items()}
     d["y"] = {k: (v if k != "pts" else v[:6]) for k, v in case["y"].items()}
@@ -343,7 +346,60 @@ def derive_grid(case, plot):
     return g
 
 
+def execute_large(case, stats):
+    """Lengths the simulator cannot reach (the statement says: up to millions of points): the shipped front-end and the
+    compiled kernel, one numba thread (deterministic), against a vectorised numpy reference.  Points lie strictly
+    inside their bins and the values are small integers, so counts and sums are exact."""
+    import numba
+    import osyris
+
+    lg = case["large"]
+    n, res_, seed = lg["n"], lg["res"], lg["seed"]
+    viol = []
+    out = {"violations": viol, "nontrivial": True, "signature": "large:%d:%d" % (n, seed)}
+    g = np.random.default_rng(seed)
+    bx, by = g.integers(0, res_, n), g.integers(0, res_, n)
+    x = 2.0 + (bx + g.uniform(0.1, 0.9, n)) * (3.0 / res_)
+    y = -1.0 + (by + g.uniform(0.1, 0.9, n)) * (4.0 / res_)
+    v = g.integers(-3, 9, n).astype(float)
+    counts = np.bincount(by * res_ + bx, minlength=res_ * res_).reshape(res_, res_)
+    sums = np.bincount(by * res_ + bx, weights=v, minlength=res_ * res_).reshape(res_, res_)
+    old = numba.get_num_threads()
+    numba.set_num_threads(1)
+    try:
+        with np.errstate(all="ignore"):
+            plot = osyris.histogram2d(osyris.Array(values=x, unit="cm", name="xq"), osyris.Array(values=y, unit="", name="yq"),
+                                      osyris.core.Layer(osyris.Array(values=v, unit="g", name="s"), operation="sum"),
+                                      osyris.core.Layer(osyris.Array(values=v.copy(), unit="g", name="m"), operation="mean"),
+                                      resolution=res_, xmin=2.0, xmax=5.0, ymin=-1.0, ymax=3.0, plot=False)
+    except Exception as e:
+        viol.append({"class": "frontend-exception", "clause": "large", "key": {"effect": type(e).__name__, "when": "large"}, "detail": {"error": f"{type(e).__name__}: {e}"[:300], "n": n}})
+        return out
+    finally:
+        numba.set_num_threads(old)
+    stats.inc("probe.large_input_compiled_run")
+    stats.inc("steps.points_binned_by_compiled_kernel", n)
+    s_got = np.ma.getdata(plot.layers[0]["data"])
+    m_got = np.ma.getdata(plot.layers[1]["data"])
+    mask = np.ma.getmaskarray(plot.layers[0]["data"])
+    got_counts = np.where(mask, 0, np.rint(np.where(m_got != 0, s_got / np.where(m_got != 0, m_got, 1.0), 0.0)))
+    with np.errstate(all="ignore"):
+        want_mean = np.where(counts > 0, sums / np.maximum(counts, 1), 0.0)
+    if np.any(mask != (counts == 0)):
+        viol.append({"class": "mask", "clause": "large", "key": {"effect": "mask", "when": "large"}, "detail": {"n": n, "bins_differing": int(np.sum(mask != (counts == 0)))}})
+    elif not np.array_equal(np.where(mask, 0.0, s_got), sums):
+        b = np.argwhere(np.where(mask, 0.0, s_got) != sums)[0].tolist()
+        viol.append({"class": "values", "clause": "large", "key": {"effect": "sum", "when": "large"},
+                     "detail": {"n": n, "bin": b, "got": float(s_got[tuple(b)]), "want": float(sums[tuple(b)]), "total_got": float(np.where(mask, 0.0, s_got).sum()), "total_want": float(sums.sum())}})
+    elif not np.allclose(np.where(mask, 0.0, m_got), want_mean, rtol=1e-12, atol=0):
+        b = np.argwhere(~np.isclose(np.where(mask, 0.0, m_got), want_mean, rtol=1e-12, atol=0))[0].tolist()
+        viol.append({"class": "values", "clause": "large", "key": {"effect": "mean", "when": "large"}, "detail": {"n": n, "bin": b, "got": float(m_got[tuple(b)]), "want": float(want_mean[tuple(b)])}})
+    return out
+
+
 def execute(case, stats):
+    if case.get("large"):
+        return execute_large(case, stats)
     viol = []
     res = {"violations": viol, "nontrivial": False}
     n = case["n"]
@@ -650,6 +706,8 @@ def execute(case, stats):
 
 
 def measure(case):
+    if case.get("large"):
+        return (case["large"]["n"],)
     dec = case.get("decisions")
     sw = sum(1 for a, b in zip(dec, dec[1:]) if a != b) if dec else 10**6
     part = {"static-equal": 0, "static-uneven": 1, "dynamic": 2}[case["sched"]["partition"]["kind"]]
@@ -659,7 +717,7 @@ def measure(case):
 
 def canonical(case, viol):
     """Freeze the schedule that was actually taken into an explicit decision list."""
-    if "decisions" in case or case["sched"]["T"] == 1:
+    if case.get("large") or "decisions" in case or case["sched"]["T"] == 1:
         return case
     r = execute(case, core.Stats())
     c = dict(case)
@@ -679,6 +737,8 @@ def _drop_point(case, i):
 
 
 def reductions(case, viol):
+    if case.get("large"):
+        return
     n = case["n"]
     # 1. drop halves / single points
     if n > 1:
@@ -797,4 +857,14 @@ def finalize(tier, base_seed, stats, viols):
             if not same_results(a, b):
                 raise HarnessError(f"model divergence: simulated T=1 != compiled T=1 for anchor case {r} (seed {core.H(base_seed, PROPERTY, 'anchor', r)})")
         checked += 1
-    return {"fidelity_anchor": {"workloads_compiled_T1_equal_simulated_T1": checked, "attempted": nanchor}}
+    # ---- lengths beyond the simulator: shipped front-end + compiled kernel, one thread, exact reference
+    sizes = [2 ** 20 + 37] if tier == "quick" else [2 ** 20 + 37, 2_500_003, 2 ** 22 + 5]
+    nlarge = 0
+    for k, n in enumerate(sizes):
+        case = {"large": {"n": n, "res": [7, 16, 5][k % 3], "seed": core.H(base_seed, PROPERTY, "large", k) % (2 ** 31)}, "run": -1 - k, "seed": 0}
+        res = core.safe_execute(sys.modules[__name__], case, stats)
+        nlarge += 1
+        for v in res["violations"]:
+            viols.append({"case": case, "violation": v})
+    return {"fidelity_anchor": {"workloads_compiled_T1_equal_simulated_T1": checked, "attempted": nanchor},
+            "large_inputs": {"runs": nlarge, "points": sizes, "how": "shipped front-end, compiled kernel, 1 numba thread, exact numpy reference"}}
